@@ -50,6 +50,15 @@ Proof.
     + intros H. inversion H; subst. tauto.
 Qed.
 
+Lemma nodupE_NoDup l : nodupE l = true <-> NoDup l.
+Proof.
+  induction l as [|x r IH]; cbn [nodupE].
+  - split; [constructor|reflexivity].
+  - rewrite andb_true_iff, negb_true_iff, memE_false, IH. split.
+    + intros [H1 H2]. constructor; assumption.
+    + intros H. inversion H; subst. tauto.
+Qed.
+
 (* ---------------------------------------------------------------- closure *)
 Section ClosureProofs.
   Variable A : Type.
